@@ -1119,6 +1119,11 @@ var c08Corpus = []c08Prog{
 	{Family: "corpus-wrapAny-panic-location", N: 8, Src: "x := [1]\nm := {a:[2] b:x c:x d:x e:x f:x g:x h:[\"a\"]}\nprint m (typeof m)\n"},
 	{Family: "corpus-deepCopy-map-order", N: 8, Src: "m := {h:1 g:2 f:3 e:4 d:5 c:6 b:7 a:8}\nrow := [m] * 3\nprint row[1]\nfor k := range row[2]\n    print k\nend\naa := [m 1] * 2\nprint aa[2] ([[m]] * 2)\n"},
 	{Family: "corpus-global-state", Pristine: true, Src: "print err errmsg pi (len errmsg)\nn := str2num \"12x\"\nprint n err errmsg\npi = 3\n"},
+	// every fmt verb applied to arrays / maps / any-held composites by printf and sprintf: nothing that depends on where
+	// the allocator placed a value (an address, a pointer-typed field printed by reflection) may reach the output
+	{Family: "corpus-printf-verbs-on-composites", Src: "a := [3 1 2]\nm := {ann:7 bob:9}\nx:any\nx = a\ny:any\ny = m\n" +
+		"printf \"%d %p %b %o\\n\" a m x y\nprintf \"%x %X %#v %T\\n\" a m x y\nprintf \"%e %c %U %t %g\\n\" a m x y a\n" +
+		"s := sprintf \"%d|%v|%s|%q|%5d|%p|%+v\" a m a m m a y\nprint s\nprintf \"%d %d\\n\" [[1] [2]] [{k:[1]}]\nprintf \"%p %p\\n\" \"s\" 1\n"},
 	{Family: "corpus-design-7-6", N: 2, Dep: true, Src: "a := 1\nb := 2\n"},
 	{Family: "corpus-design-7-8", N: 3, Dep: true, Src: "font {size:\"a\" weight:\"b\" style:1}\n"},
 }
